@@ -169,6 +169,9 @@ class SysSim(Engine):
             ops.append(op)
         # stocks without a process get arbitrary content: must not matter
         ops.append({"op": "free_stock_noise", "vseed": rng.randint(0, 10 ** 6)})
+        if rng.chance(0.2):
+            # masses are whole numbers: some flows are held as integer arrays (counts of items), stored through the public setter
+            ops.append({"op": "retype", "which": rng.randint(1, 2 ** 16)})
         n_rounds = rng.randint(1, 4)
         for _ in range(n_rounds):
             ops.append(self._gen_check(rng, world))
@@ -593,6 +596,8 @@ class SysSim(Engine):
             if arr.values.size == 0:
                 return
             idx = np.unravel_index(op["entry"] % arr.values.size, arr.values.shape) if arr.values.shape else ()
+            if arr.values.dtype.kind in "iu" and (op["kind"] not in ("neg_big", "neg_pair") or not np.isfinite(ref_default_tolerance(sys_))):
+                arr.set_values(arr.values.astype(np.float64))   # NaN, inf and fractions need a float array
             old = float(arr.values[idx])
             tol = ref_default_tolerance(sys_)
             scale = max(tol, 100 * EPS)
@@ -608,8 +613,11 @@ class SysSim(Engine):
                     if a_.values.size == 0:
                         continue
                     idx_ = np.unravel_index(op["entry"] % a_.values.size, a_.values.shape) if a_.values.shape else ()
+                    val_ = -max(25.0, 4 * scale) if op["sign"] < 0 else np.nan   # ... or a NaN each
+                    if a_.values.dtype.kind in "iu" and not (np.isfinite(val_) and val_ == round(val_)):
+                        a_.set_values(a_.values.astype(np.float64))   # NaN, inf and fractions need a float array
                     st.undo.append((a_, idx_, float(a_.values[idx_])))
-                    a_.values[idx_] = -max(25.0, 4 * scale) if op["sign"] < 0 else np.nan   # ... or a NaN each
+                    a_.values[idx_] = val_
                 self._fault(st, "conservation_neg_pair_flow" if op["sign"] < 0 else "conservation_nan_pair_flow")
                 self._update_levels(st)
                 return
@@ -647,6 +655,13 @@ class SysSim(Engine):
             st.undo.append((arr, idx, old))
             self._fault(st, "conservation_" + fk + "_" + role)
             self._update_levels(st)
+            return
+        if kind == "retype":
+            for k_, nm in enumerate(st.flow_names):
+                f = sys_.flows[nm]
+                if (op["which"] >> (k_ % 16)) & 1 and f.values.size and np.all(np.isfinite(f.values)) and np.all(f.values == np.round(f.values)):
+                    f.set_values(f.values.astype(np.int64))
+                    self._probe(st, "flow_held_as_integer_array")
             return
         if kind == "rewire":
             from flodym import Flow
